@@ -11,6 +11,7 @@ open Emboss.C07
 #print axioms C07_rejects_only_camel_collisions
 #print axioms C07_camel_collisions_rejected
 #print axioms C07_names_counterexample
+#print axioms C07_clash_scopes
 #print axioms C07_namespace_components
 #print axioms C07_namespace_keywords_reserved
 #print axioms C07_enable_ifs_classified
